@@ -66,7 +66,8 @@ class ControlFlowTransformer(converter.Base):
     return results
 
   def _create_state_functions(
-      self, block_vars, nonlocal_declarations, getter_name, setter_name):
+      self, block_vars, nonlocal_declarations, getter_name, setter_name,
+      reserved):
     if not block_vars:
       template = """
         def getter_name():
@@ -88,12 +89,14 @@ class ControlFlowTransformer(converter.Base):
                 var_=v,
                 name=ast.Constant(str(v))))
 
+    # The parameter of the setter must not be one of the state variables.
+    vars_name = self.ctx.namer.new_symbol('vars_', reserved)
     template = """
       def getter_name():
         return guarded_state_vars,
-      def setter_name(vars_):
+      def setter_name(vars_name):
         nonlocal_declarations
-        state_vars, = vars_
+        state_vars, = vars_name
     """
     return templates.replace(
         template,
@@ -101,7 +104,8 @@ class ControlFlowTransformer(converter.Base):
         getter_name=getter_name,
         guarded_state_vars=guarded_block_vars,
         setter_name=setter_name,
-        state_vars=tuple(block_vars))
+        state_vars=tuple(block_vars),
+        vars_name=vars_name)
 
   def _create_loop_options(self, node):
     if not anno.hasanno(node, anno.Basic.DIRECTIVES):
@@ -222,7 +226,8 @@ class ControlFlowTransformer(converter.Base):
     state_getter_name = self.ctx.namer.new_symbol('get_state', reserved)
     state_setter_name = self.ctx.namer.new_symbol('set_state', reserved)
     state_functions = self._create_state_functions(
-        cond_vars, nonlocal_declarations, state_getter_name, state_setter_name)
+        cond_vars, nonlocal_declarations, state_getter_name, state_setter_name,
+        reserved)
 
     orelse_body = node.orelse
     if not orelse_body:
@@ -277,7 +282,8 @@ class ControlFlowTransformer(converter.Base):
     state_getter_name = self.ctx.namer.new_symbol('get_state', reserved)
     state_setter_name = self.ctx.namer.new_symbol('set_state', reserved)
     state_functions = self._create_state_functions(
-        loop_vars, nonlocal_declarations, state_getter_name, state_setter_name)
+        loop_vars, nonlocal_declarations, state_getter_name, state_setter_name,
+        reserved)
 
     opts = self._create_loop_options(node)
 
@@ -329,7 +335,8 @@ class ControlFlowTransformer(converter.Base):
     state_getter_name = self.ctx.namer.new_symbol('get_state', reserved)
     state_setter_name = self.ctx.namer.new_symbol('set_state', reserved)
     state_functions = self._create_state_functions(
-        loop_vars, nonlocal_declarations, state_getter_name, state_setter_name)
+        loop_vars, nonlocal_declarations, state_getter_name, state_setter_name,
+        reserved)
 
     opts = self._create_loop_options(node)
     opts.keys.append(ast.Constant('iterate_names'))
